@@ -9,7 +9,7 @@ depth k+1", plus the user-visible corollary that the frame's own locals are neve
 from hypothesis import strategies as st
 
 from vf import lab, oracle
-from vf.core import Prop, Outcome
+from vf.core import Prop, Outcome, fd
 
 from deep.api.tracepoint.trigger import Trigger, LineLocation, LocationAction, Location
 
@@ -191,9 +191,9 @@ class C05(Prop):
 
     def strategy(self, tier):
         big = tier == 'thorough'
-        return st.fixed_dictionaries({
+        return fd({
             'locals': st.lists(spec_strategy(big), min_size=1, max_size=30 if big else 14),
-            'limits': st.fixed_dictionaries({
+            'limits': fd({
                 'MAX_VARIABLES': st.one_of(st.integers(0, 60), st.integers(0, 12), st.just(1000)),
                 'MAX_STRING_LENGTH': st.one_of(st.integers(0, 64), st.just(1024)),
                 'MAX_COLLECTION_SIZE': st.one_of(st.integers(0, 12), st.just(10)),
